@@ -27,12 +27,14 @@ H = []
 
 
 def h(prop, crate, module, name, obligation, functions, bounds, quick=True, tq=300, tt=1800, unwind=None, miri=False,
-      memsafety=False, stubs=None, instantiation="", extra_props=(), fs=None):
+      memsafety=False, stubs=None, instantiation="", extra_props=(), fs=None, rv=True, exp=False):
+    """exp=True: experimental tier only (`bin/check P --tier experimental`): harnesses that are kept in the tree but did not discharge
+    within the thorough cap on this image; they are not part of any registered command (a check that cannot finish proves nothing)."""
     H.append({
         "props": [prop] + list(extra_props), "crate": crate, "name": f"{module}::{name}", "obligation": obligation,
-        "functions": functions, "bounds": bounds, "tiers": ("quick", "thorough") if quick else ("thorough",),
+        "functions": functions, "bounds": bounds, "tiers": ("experimental",) if exp else (("quick", "thorough") if quick else ("thorough",)),
         "timeout": {"quick": tq, "thorough": tt}, "unwind": unwind, "miri": miri, "memsafety": memsafety,
-        "stubs": stubs, "instantiation": instantiation, "fs": fs,
+        "stubs": stubs, "instantiation": instantiation, "fs": fs, "rv": rv,
     })
 
 
@@ -55,7 +57,7 @@ def by_property():
 # =====================================================================================================================
 CODE = "code::verif_kani"
 NUM = ["u8", "u16", "u32", "u64", "u128", "usize", "i8", "i16", "i32", "i64", "i128", "isize", "f32", "f64"]
-QUICK_NUM = {"u8", "u64", "u128", "i32", "f64", "usize"}
+QUICK_NUM = {"u64", "i32", "f64"}
 for t in NUM:
     h("C08", "foyer-common", CODE, f"c08_r1_{t}", "R1 round trip",
       f"<{t} as Code>::{{encode,decode,estimated_size}}, io::Write for &mut [u8], io::Read for &[u8]",
@@ -68,14 +70,14 @@ h("C08", "foyer-common", CODE, "c08_r1_bool", "R1+R2 bool", "<bool as Code>::{en
 for n in (0, 1, 2, 3, 4, 8):
     h("C08", "foyer-common", CODE, f"c08_r1_vec_{n}", "R1+R2 Vec<u8>", "<Vec<u8> as Code>::{encode,decode,estimated_size}",
       f"payload length exactly {n} bytes, contents symbolic; every too-small destination length (symbolic); every truncated source",
-      quick=n in (0, 3), tq=300)
+      quick=n in (3,), tq=300)
 for n in (0, 1, 4, 8):
     h("C08", "foyer-common", CODE, f"c08_r1_bytes_{n}", "R1+R2 Bytes", "<bytes::Bytes as Code>::{encode,decode,estimated_size}",
       f"payload length exactly {n} bytes, contents symbolic; every too-small destination (symbolic length)", quick=n in (4,), tq=300)
 for n in (0, 1, 2, 3):
     h("C08", "foyer-common", CODE, f"c08_r1_string_{n}", "R1+R2 String", "<String as Code>::{encode,decode,estimated_size}, String::from_utf8",
       f"payload length exactly {n} bytes, contents symbolic ASCII (bytes < 0x80); multi-byte UTF-8 is outside the symbolic claim",
-      quick=n in (0, 2), tq=300)
+      quick=n in (2,), tq=600)
 h("C08", "foyer-common", CODE, "c08_r1_string_multibyte", "R1 String with multi-byte UTF-8 (encode side, symbolic)", "<String as Code>::{encode,estimated_size}",
   "every string of one two-byte scalar (U+0080..U+07FF), optionally preceded by one ASCII byte", quick=True, tq=300)
 h("C08", "foyer-common", CODE, "c08_r1_string_multibyte_concrete", "R1 String with multi-byte UTF-8 (encode+decode, concrete samples)", "<String as Code>::{encode,decode}, String::from_utf8",
@@ -261,13 +263,16 @@ h("C17", "foyer-memory", RAW, "c17_hash_table_indexer_collision", "memory index 
 # =====================================================================================================================
 KP = "keeper::verif_kani"
 KF = "Keeper::{new,insert,get}, PieceRef::drop, Piece::{new,clone,drop}, hashbrown::HashTable::{entry,find} (portable groups)"
-h("C01", "foyer-storage", KP, "c01_k1_keeper_supersede", "K1 write-queue visibility: v1 queued, v2 queued, write of v1 completes", KF,
-  "one symbolic key, concrete 3-step schedule", quick=True, tq=900, tt=3000, unwind=6, miri=True, extra_props=["C17"])
+for nm, what, q, props in (("c01_k1_keeper_supersede", "v1, v2 queued; write of v1 completes, then v2", True, ["C01"]),
+                            ("c01_k1_keeper_supersede_rev", "v1, v2 queued; write of v2 completes first", False, ["C01"]),
+                            ("c01_k1_keeper_three", "three versions queued; the middle one completes, then the first", False, ["C01"]),
+                            ("c17_keeper_twins", "keys with identical 64-bit hash; one key's write completes, the other stays queued", True, ["C17", "C01"]),
+                            ("c17_keeper_twins_supersede", "twins with a superseding version of one of them", False, ["C17", "C01"]),
+                            ("c01_k1_keeper_distinct", "two keys with distinct hashes", False, ["C01"])):
+    h(props[0], "foyer-storage", KP, nm, "K1 write-queue visibility: " + what, KF, "concrete schedule of enqueue / write-completion steps, symbolic 32-bit payload; after every step: get() of both keys",
+      quick=q, tq=600, tt=1800, unwind=6, miri=True, extra_props=props[1:], exp=True)
 h("C01", "foyer-storage", KP, "c01_k1_keeper_collide_3", "K1 symbolic schedule, two keys colliding on all 64 hash bits", KF,
-  "2 keys, 3 symbolic steps (insert next version of A|B / complete the write of a queued piece)", quick=False, tq=900, tt=3000, unwind=6, miri=True, extra_props=["C17"])
-h("C01", "foyer-storage", KP, "c01_k1_keeper_distinct_3", "K1 symbolic schedule, two keys with distinct hashes", KF,
-  "2 keys, 3 symbolic steps", quick=False, tq=900, tt=3000, unwind=6, miri=True)
-h("C01", "foyer-storage", KP, "c01_k1_keeper_collide_4", "K1 symbolic schedule, 4 steps", KF, "2 colliding keys, 4 symbolic steps", quick=False, tq=900, tt=3600, unwind=6, miri=True, extra_props=["C17"])
+  "2 keys, 3 symbolic steps (insert next version of A|B / complete the write of a queued piece)", quick=False, tq=900, tt=3600, unwind=6, miri=True, extra_props=["C17"], exp=True)
 
 BUF = "engine::block::buffer::verif_kani"
 SPL = "Splitter::{split,split_blob,split_block,seal_blob}, BlobIndex::{write,seal,reset,is_full,capacity}, BufferEntryInfo::aligned, IoSlice::slice, BlobIndexReader::read, BlobEntryIndex::{read,write,aligned}"
@@ -286,7 +291,7 @@ h("C07", "foyer-storage", BUF, "c07_w3_push_slice", "W3 Buffer::push_slice bookk
   "4-page buffer, 3 pushes with symbolic lengths 1..=12 KiB, max_entry_size symbolic 1..4 pages", quick=True, tq=300, extra_props=["C08"])
 for n in (0, 2):
     h("C03", "foyer-storage", BUF, f"c03_d3a_index_flip_{n}", "D3a sealed blob index page with one damaged byte", "BlobIndex::{write,seal}, BlobIndexReader::read",
-      f"{n} entries (symbolic), one symbolic byte among the stored checksum / count / first slot replaced by a symbolic different value", quick=(n == 2), tq=300,
+      f"{n} entries (symbolic), one symbolic byte among the stored checksum / count / first slot replaced by a symbolic different value", quick=(n == 0), tq=600, exp=(n == 2),
       stubs=STORAGE_STUBS[:5] + HEAD + [STORAGE_STUBS[-1]])
 h("C03", "foyer-storage", BUF, "c03_d3b_index_arbitrary", "D3b arbitrary page with wrong checksum", "BlobIndexReader::read",
   "first 40 bytes symbolic (stored checksum, count, first slot), rest unconstrained; checksum comparison constrained to mismatch", quick=True, tq=300,
@@ -296,34 +301,38 @@ RC = "engine::block::recover::verif_kani"
 RCF = "BlockRecoverRunner::run, BlockScanner::{new,next}, BlobIndexReader::read, Block::read over a harness IoEngine / Partition (4-page block)"
 h("C03", "foyer-storage", RC, "c03_d5a_scan_then_garbage", "D5a scan stops at the first damaged page; read errors (Quiet/Strict)", RCF,
   "blob of 2 entries written by the real index writer (hashes, sequences symbolic), followed by a page of arbitrary bytes with non-matching checksum; optional read error at read 0 or 1; both recovery modes",
-  quick=False, tq=900, tt=3000, fs=4100, extra_props=["C07"], stubs=STORAGE_STUBS[:5] + HEAD + [STORAGE_STUBS[-1]])
+  quick=False, tq=900, tt=3000, fs=4100, extra_props=["C07"], stubs=STORAGE_STUBS[:5] + HEAD + [STORAGE_STUBS[-1]], exp=True)
 h("C03", "foyer-storage", RC, "c03_d5b_damaged_index", "D5b damaged blob index page yields nothing", RCF,
   "index page of 2 entries with one symbolic byte (of the first 40) replaced by a symbolic different value", quick=False, tq=900, tt=3000, fs=4100,
-  stubs=STORAGE_STUBS[:5] + HEAD + [STORAGE_STUBS[-1]])
+  stubs=STORAGE_STUBS[:5] + HEAD + [STORAGE_STUBS[-1]], exp=True)
 h("C03", "foyer-storage", RC, "c03_d5c_stale_second_blob", "D5c stale generation behind a newer blob is not recovered", RCF,
   "two one-entry blobs in one block, sequences symbolic (regressing or continuing)", quick=False, tq=900, tt=3000, fs=4100, extra_props=["C07"],
-  stubs=STORAGE_STUBS[:5] + HEAD + [STORAGE_STUBS[-1]])
+  stubs=STORAGE_STUBS[:5] + HEAD + [STORAGE_STUBS[-1]], exp=True)
 ST = "store::verif_kani"
 STF = "Store::{load,enqueue,delete}, Keeper::{insert,get}, PieceRef::drop over a harness `Engine` (answers arbitrary decoded (key,value) / miss / throttled / error)"
-h("C01", "foyer-storage", ST, "c01_store_load_disk_key_check", "L1 decoded-key comparison on disk answers", STF,
-  "requested key symbolic u64; engine answer symbolic: Entry(any key, any value) | Miss | Throttled | Error", quick=True, tq=900, tt=3000, unwind=6, miri=True, extra_props=["C17", "C03"])
-h("C01", "foyer-storage", ST, "c01_store_load_queue_first", "L2 write queue consulted first; colliding twin not aliased", STF,
-  "queued key 16 or 17 (identical 64-bit hash), value symbolic; lookup of 16 / 17 / 32; engine answer symbolic", quick=True, tq=900, tt=3000, unwind=6, miri=True, extra_props=["C17"])
-h("C12", "foyer-storage", ST, "c12_store_enqueue_admission", "E1 admission decision of Store::enqueue", STF,
-  "force symbolic, filter result symbolic (admit / reject / throttled), key and value symbolic", quick=True, tq=900, tt=3000, unwind=6, miri=True, extra_props=["C01"])
+for nm, kind, q in (("c01_store_load_disk_entry", "Entry(any key, any value)", True), ("c01_store_load_disk_miss", "Miss", False),
+                    ("c01_store_load_disk_throttled", "Throttled", False), ("c01_store_load_disk_error", "device error", True)):
+    h("C01", "foyer-storage", ST, nm, "L1 decoded-key comparison / result mapping on disk answers", STF, f"requested key symbolic u64; engine answer: {kind} (contents symbolic)",
+      quick=q, tq=600, tt=1800, unwind=6, miri=True, extra_props=["C17", "C03"], exp=True)
+for nm, what, q in (("c01_store_load_queue_first_same", "queued 16, lookup 16", True), ("c01_store_load_queue_first_twin", "queued 16, lookup 17 (identical hash), disk answers Entry(any,any)", True),
+                    ("c01_store_load_queue_first_twin_miss", "queued 17, lookup 16, disk misses", False), ("c01_store_load_queue_first_other", "queued 16, lookup 32", False)):
+    h("C01", "foyer-storage", ST, nm, "L2 write queue consulted first; colliding twin not aliased", STF, what + "; queued value symbolic", quick=q, tq=600, tt=1800, unwind=6, miri=True, extra_props=["C17"], exp=True)
+for nm, what, q in (("c12_store_enqueue_admit", "filter admits", True), ("c12_store_enqueue_reject", "filter rejects", True), ("c12_store_enqueue_throttled", "filter throttles", False),
+                    ("c12_store_enqueue_forced_reject", "forced although the filter rejects", True)):
+    h("C12", "foyer-storage", ST, nm, "E1 admission decision of Store::enqueue", STF, what + "; key and value symbolic", quick=q, tq=600, tt=1800, unwind=6, miri=True, exp=False)
 TB = "engine::block::tombstone::verif_kani"
 TF = "TombstoneLog::{open,append,calculate_slot_addr,slot_addr}, Tombstone::{read,write}, PageBuffer::{open,update,load,flush,locate} on a harness IoEngine/Partition over a byte array"
 h("C10", "foyer-storage", TB, "c10_t4_slot_addr", "T4 slot arithmetic", "TombstoneLog::calculate_slot_addr", "pages 1..=2^20, slot < 2^40 (symbolic)", quick=True, tq=300)
 for nm, pp, newest, q in (("c10_t1_open_p0_s5", "2 pages, 1 partition", 5, False), ("c10_t1_open_p0_s255", "2 pages, 1 partition", 255, False),
                           ("c10_t1_open_p1_s256", "2 pages, 1 partition", 256, True), ("c10_t1_open_p1_s300", "2 pages, 1 partition", 300, False),
                           ("c10_t1_open_p2_s600", "3 pages, 1 partition", 600, False), ("c10_t1_open_2parts_s300", "2 partitions of 1 page", 300, True)):
-    h("C10", "foyer-storage", TB, nm, "T1 tail location after reopen", TF, f"{pp}; newest tombstone at global slot {newest} (hash, sequence symbolic), one older tombstone", quick=q, tq=600, unwind=260, fs=4100)
+    h("C10", "foyer-storage", TB, nm, "T1 tail location after reopen", TF, f"{pp}; newest tombstone at global slot {newest} (hash, sequence symbolic), one older tombstone", quick=q, tq=600, unwind=260, fs=4100, rv=False, exp=True)
 for nm, newest, q in (("c10_t3_cycle_p0_s9", 9, False), ("c10_t3_cycle_p0_s255", 255, True), ("c10_t3_cycle_p1_s300", 300, True)):
-    h("C10", "foyer-storage", TB, nm, "T2+T3 open -> append -> reopen", TF, f"2 pages; newest tombstone at slot {newest}; one appended tombstone (symbolic)", quick=q, tq=600, unwind=260, fs=4100)
+    h("C10", "foyer-storage", TB, nm, "T2+T3 open -> append -> reopen", TF, f"2 pages; newest tombstone at slot {newest}; one appended tombstone (symbolic)", quick=q, tq=600, unwind=260, fs=4100, rv=False, exp=True)
 for nm, pg, n, tail, q in (("c10_t2_append_2_at255", 2, 2, 255, True), ("c10_t2_append_3_at254", 2, 3, 254, False), ("c10_t2_append_3_at255", 2, 3, 255, True),
                            ("c10_t2_append_2_at256", 2, 2, 256, False), ("c10_t2_append_2_at511_wrap", 2, 2, 511, True), ("c10_t2_append_1_at700", 3, 1, 700, False)):
     h("C10", "foyer-storage", TB, nm, "T2 append addressing / page switch / wrap-around on the device image", TF,
-      f"{pg}-page log, tail slot {tail} (concrete), batch of {n} symbolic tombstones; every other slot checked untouched (symbolic slot)", quick=q, tq=600, unwind=8, fs=4100)
+      f"{pg}-page log, tail slot {tail} (concrete), batch of {n} symbolic tombstones; every other slot checked untouched (symbolic slot)", quick=q, tq=600, unwind=8, fs=4100, rv=False, exp=True)
 h("C03", "foyer-storage", TB, "c03_d4_tombstone_read", "D4 Tombstone::read on arbitrary bytes", "Tombstone::{read,write}", "all 2^128 inputs", quick=True, tq=300)
 
 OUTSIDE = {
